@@ -205,6 +205,13 @@ func addReflectIntrinsics(t map[string]intrinsic) {
 		}
 		return m.ctx.False
 	}
+	t["(reflect.Value).IsZero"] = func(m *Machine, fr *frame, a []Value) Value {
+		r := rv(m, a[0], "Value.IsZero")
+		if !r.valid {
+			m.runtimePanic("reflect: call of reflect.Value.IsZero on zero Value")
+		}
+		return m.equal(r.V, m.zero(r.T))
+	}
 	t["(reflect.Value).Elem"] = func(m *Machine, fr *frame, a []Value) Value {
 		r := rv(m, a[0], "Value.Elem")
 		switch u := r.T.Underlying().(type) {
